@@ -31,6 +31,11 @@ inductive Ev where
   | quiescent (c : Nat) (schedulable inIdle inPending : Bool) (key next : Int)
   /-- at quiescence (no helper, no command, no plugin process left anywhere): the pending-checks counter -/
   | quiescentCounter (k : Int)
+  /-- an execution attempt of `c` has come back (`ExecuteCheck` returned: result delivered, process spawned, or the single-flight
+      guard found busy) and nobody but the scheduler's own machinery wrote `next_check` since the attempt was dispatched:
+      the clock at the (earliest outstanding) dispatch and `next_check` as it stands now.  Also: the scheduler takes an entry that it
+      had skipped before (at clock `dispatchedAt`), under the key `next` -/
+  | rearmed (c : Nat) (dispatchedAt next : Int)
   deriving Repr, DecidableEq
 
 inductive Clause where
@@ -49,6 +54,9 @@ inductive Clause where
   | ran_although_disabled   -- not forced and active checks disabled / period closed / dependency failed — and executed
   | quiescent_pending       -- every helper has finished and the checkable is still in the pending set: it never comes back
   | slot_leaked             -- nothing is running any more and the pending-checks counter is not 0: a concurrency slot is lost
+  | not_rearmed             -- an execution attempt has come back and next_check does not lie after the moment it was dispatched:
+                            -- the checkable is still due, the scheduler takes it again at once (busy loop) - "after each execution the
+                            -- next check time lies in the future"
   deriving Repr, DecidableEq
 
 def Clause.name : Clause → String
@@ -67,6 +75,7 @@ def Clause.name : Clause → String
   | .ran_although_disabled => "ran_although_disabled"
   | .quiescent_pending => "quiescent_pending"
   | .slot_leaked => "slot_leaked"
+  | .not_rearmed => "not_rearmed"
 
 /-- "with active checks enabled and inside its check period" in the property's terms, over facts the observer controls:
     the object's own `enable_active_checks`, the global `enable_host_checks` / `enable_service_checks` (whichever applies to
@@ -122,6 +131,7 @@ def specStep (sp : SpecSt) : Ev → Option Clause
     else if p then some .quiescent_pending
     else none
   | .quiescentCounter k => if k = 0 then none else some .slot_leaked
+  | .rearmed _ d nx => if d < nx then none else some .not_rearmed
 
 def specNext (sp : SpecSt) : Ev → SpecSt
   | .execStart c => { sp with executing := c :: sp.executing }
